@@ -577,6 +577,9 @@ func TestVerifC14(t *testing.T) {
 	// --- Part 5: very large list bodies. -----------------------------------
 	c14Large(rep, up, ls)
 
+	// --- Part 6: no space left on the device holding the data directory. ---
+	c14DiskFull(rep, up)
+
 	// --- Part 2: SIGKILL campaign (no strace). ----------------------------
 	kills := verifkit.Pick(5, 40)
 	for k := 0; k < kills; k++ {
@@ -1034,4 +1037,108 @@ func c14Large(rep *verifkit.Report, up *sysUpstream, ls *sysListServer) {
 	if rep.ClassCount("large-body:stored-completely") == 0 {
 		rep.Inconcl("large-body phase: no large list was stored")
 	}
+}
+
+
+// c14DiskFull puts the data directory on a small tmpfs, fills it up and causes
+// lease-database stores: every store fails with ENOSPC, and the complete
+// previous database must stay in place (and visible to a concurrent reader)
+// all the time.
+func c14DiskFull(rep *verifkit.Report, up *sysUpstream) {
+	dir, err := os.MkdirTemp(os.Getenv("VERIF_SCRATCH"), "agh-c14full-")
+	if err != nil {
+		rep.Inconcl(err.Error())
+
+		return
+	}
+	defer os.RemoveAll(dir)
+	data := filepath.Join(dir, "data")
+	_ = os.MkdirAll(data, 0o755)
+	if merr := syscall.Mount("tmpfs", data, "tmpfs", 0, "size=2m"); merr != nil {
+		rep.Event("disk_full_phase_skipped_cannot_mount_tmpfs")
+
+		return
+	}
+	defer func() { _ = syscall.Unmount(data, syscall.MNT_DETACH) }()
+	opts := sysConfOpts{UpstreamPort: up.Port, ExtraTop: c14DHCPConf}
+	in := &sysInst{Dir: dir, WebPort: verifkit.FreePort(), done: make(chan struct{})}
+	in.DNSPort = verifkit.FreePort()
+	if err = sysWriteConfig(dir, in.WebPort, in.DNSPort, opts); err != nil {
+		rep.Inconcl(err.Error())
+
+		return
+	}
+	if err = in.launch(os.Getenv("VERIF_AGH_BIN"), opts); err != nil {
+		rep.Inconcl("disk-full phase start: " + err.Error())
+
+		return
+	}
+	defer in.Kill()
+	lease := func(i int) map[string]any {
+		return map[string]any{"mac": fmt.Sprintf("aa:bb:dd:00:%02x:%02x", (i>>8)&255, i&255), "ip": fmt.Sprintf("10.77.9.%d", 1+i%250), "hostname": fmt.Sprintf("full%d", i)}
+	}
+	for i := 0; i < 20; i++ {
+		if st, b, aerr := in.API("POST", "/control/dhcp/add_static_lease", lease(i)); aerr != nil || st != 200 {
+			rep.Inconcl(fmt.Sprintf("disk-full phase add_static_lease: %d %v %s", st, aerr, b))
+
+			return
+		}
+	}
+	leasePath := filepath.Join(data, "leases.json")
+	before, rerr := os.ReadFile(leasePath)
+	if rerr != nil || c14ValidLeases(before) != "" {
+		rep.Inconcl("disk-full phase: no valid lease database before the fault")
+
+		return
+	}
+	// Fill the file system completely.
+	filler, ferr := os.Create(filepath.Join(data, "filler.bin"))
+	if ferr != nil {
+		rep.Inconcl("disk-full phase: " + ferr.Error())
+
+		return
+	}
+	chunk := make([]byte, 4096)
+	for {
+		if _, werr := filler.Write(chunk); werr != nil {
+			break
+		}
+	}
+	_ = filler.Close()
+	var stop atomic.Bool
+	var wg sync.WaitGroup
+	wg.Add(1)
+	go c14Reader(rep, dir, &stop, &wg)
+	time.Sleep(50 * time.Millisecond)
+	failed, accepted := 0, 0
+	for i := 20; i < 60; i++ {
+		st, _, aerr := in.API("POST", "/control/dhcp/add_static_lease", lease(i))
+		if aerr == nil && st == 200 {
+			accepted++
+		} else {
+			failed++
+		}
+		rep.Class("lease_stores_on_a_full_device")
+		if _, serr := os.Stat(leasePath); serr != nil {
+			rep.Violate("dest-missing:leases:on-full-device", "the lease database is missing after a store that hit a full device", map[string]any{"after_store": i, "error": serr.Error()})
+
+			break
+		}
+	}
+	rep.Eval(true, "disk-full|leases")
+	rep.EventN("lease_store_calls_refused_on_full_device", failed)
+	rep.EventN("lease_store_calls_accepted_on_full_device", accepted)
+	stop.Store(true)
+	wg.Wait()
+	now, rerr := os.ReadFile(leasePath)
+	switch {
+	case rerr != nil:
+		rep.Violate("dest-missing:leases:on-full-device", "the lease database is missing after stores that hit a full device", map[string]any{"error": rerr.Error()})
+	case c14ValidLeases(now) != "":
+		rep.Violate("incomplete-file:leases:on-full-device", "the lease database is incomplete after stores that hit a full device: "+c14ValidLeases(now), map[string]any{"size_before": len(before), "size_now": len(now)})
+	case string(now) == string(before):
+		rep.Event("lease_database_kept_previous_version_on_full_device")
+	}
+	_ = os.Remove(filepath.Join(data, "filler.bin"))
+	in.Stop(20 * time.Second)
 }
